@@ -18,7 +18,8 @@ add("C12", "E1",
     "Complete enumeration: every ordered pair of register operands of both ISAs (all names, "
     "lower/upper/mixed case, as plain operand and as memory base/index, each produced by the real "
     "parser) is compared with an explicit architectural partition; the space is finite and "
-    "covered completely in both tiers.",
+    "covered completely in both tiers. Part (b): at graph level, a producer writing two registers "
+    "and a consumer reading one, all triples over ~20 names per ISA: edge iff overlap.",
     "Trusted: the partition table mc/ref/regs.py (written from the architecture manuals).",
     "DESIGN.md §4 C12")
 
